@@ -123,6 +123,12 @@ func genSpec(r *simk.Rand, i, np int, focus, algo string) BSpec {
 		sp.Dst = fmt.Sprintf("dtn://r%d/svc", r.Range(1, 3))
 	default:
 		sp.Dst = simNodeEID + "app"
+		if r.Bool(0.4) {
+			sp.Dst = simNodeEID + "nobody" // node-local endpoint without a registered agent
+		}
+	}
+	if focus == "C15" && r.Bool(0.25) {
+		sp.Dst = simNodeEID + r.PickS("app", "nobody")
 	}
 	if focus == "C07" {
 		sp.Dst = simNodeEID + "app"
@@ -150,6 +156,13 @@ func genSpec(r *simk.Rand, i, np int, focus, algo string) BSpec {
 			sp.CT = fmt.Sprintf("past:%d", r.Range(1, 20000))
 		}
 	}
+	pHop, pAge, pUnk, pRep := 0.3, 0.2, 0.2, 0.2
+	switch focus {
+	case "C06":
+		pHop, pAge, pUnk = 0.6, 0.5, 0.4
+	case "C15":
+		pRep, pUnk, pHop = 0.85, 0.35, 0.4
+	}
 	// lifetime
 	switch r.Intn(6) {
 	case 0:
@@ -166,11 +179,11 @@ func genSpec(r *simk.Rand, i, np int, focus, algo string) BSpec {
 		if sp.LifeMs < 30000 {
 			sp.LifeMs += 60000
 		}
-	} else if r.Bool(0.2) {
+	} else if r.Bool(pAge) {
 		sp.AgeMs = int64(r.Pick(0, 10, 1000))
 	}
 	// hop count
-	if r.Bool(0.3) {
+	if r.Bool(pHop) {
 		sp.HopLimit = r.Pick(0, 1, 2, 5, 32, 254, 255)
 		if !sp.local() {
 			sp.HopCount = r.Pick(0, 0, 1, sp.HopLimit-1, sp.HopLimit, sp.HopLimit)
@@ -183,13 +196,13 @@ func genSpec(r *simk.Rand, i, np int, focus, algo string) BSpec {
 		}
 	}
 	// unknown blocks (delivered bundles only: a local application has no reason to add them)
-	if !sp.local() && r.Bool(0.2) {
+	if !sp.local() && r.Bool(pUnk) {
 		flags := uint64(r.Pick(0, 0x01, blockFlagReport, blockFlagDeleteBundle, blockFlagRemoveBlock, blockFlagRemoveBlock|blockFlagReport))
-		sp.Unknown = append(sp.Unknown, UBlock{Type: uint64(r.Pick(192, 200, 250)), Flags: flags, Len: r.Pick(0, 3, 40)})
+		sp.Unknown = append(sp.Unknown, UBlock{Type: uint64(r.Pick(61, 200, 250)), Flags: flags, Len: r.Pick(0, 3, 40)})
 	}
 	sp.CRC = r.Pick(0, 1, 2, 2)
 	// status report requests
-	if r.Bool(0.2) && sp.Src != "dtn:none" {
+	if r.Bool(pRep) && sp.Src != "dtn:none" {
 		for _, f := range []uint64{fReqReceive, fReqForward, fReqDeliver, fReqDelete} {
 			if r.Bool(0.4) {
 				sp.Flags |= f
@@ -208,6 +221,9 @@ func genSpec(r *simk.Rand, i, np int, focus, algo string) BSpec {
 		default:
 			sp.ReportTo = simNodeEID + "app2"
 		}
+	}
+	if focus == "C15" && r.Bool(0.08) && sp.Src != "dtn:none" {
+		sp.Flags = fAdmin // an administrative record from elsewhere: never reported about
 	}
 	if algo == "binary_spray" && !sp.local() && r.Bool(0.7) {
 		sp.Spray = r.Pick(1, 1, 2, 3, 4, 7, 8)
